@@ -34,7 +34,7 @@ Definition check_match (events : list string) (rows : list (list string * list (
 
 (* ------------------------------------------------------------------ *)
 (* canonical token rendering of interpreter state, shared with harness/impl.py *)
-From XSM Require Export Model.Macro.
+From XSM Require Export Model.Macro Model.Snap.
 
 Definition mkT := Build_trans.
 Definition mkI := Build_invoke.
@@ -200,3 +200,45 @@ Definition pure_case (m : machine) (cx : ctx) (evs : list event) : list (list to
   flat_pure res :: match snd res with None => pure_snaps m (capture (fst res)) evs | Some _ => [] end.
 Definition check_pure (m : machine) (runs : list (ctx * list event * list (list tok))) : list nat :=
   bad_idx (fun r => snaps_eqb (pure_case m (fst (fst r)) (snd (fst r))) (snd r)) runs.
+
+(* K-snap: run the first k operations, persist, restore into a fresh interpreter, continue on the restored one.
+   Result: the token rendering of the snapshot (status ctx cfg output hist) followed by the restored run's snapshots. *)
+Definition flat_snap (sn : snap) : list tok :=
+  [TS "status"; TN (status_code (sn_status sn))]
+  ++ TS "ctx" :: map (fun v => TZ (ctx_get (sn_ctx sn) v)) [0; 1; 2; 3]
+  ++ TS "cfg" :: map TN (sn_cfg sn)
+  ++ TS "output" :: flat_optz (sn_output sn)
+  ++ TS "hist" :: List.concat (map (fun e => TN (fst e) :: flat_cfg (snd e))
+                                   (sort_hist (filter (fun e => match snd e with [] => false | _ => true end) (sn_hist sn)))).
+
+Fixpoint run_ops (eng : engine) (m : machine) (s : st) (ops : list (nat * list event)) : st :=
+  match ops with
+  | [] => s
+  | (t, op) :: r =>
+      let s1 := if Nat.eqb t 0 then s else fst (advance_idle idle_fuel eng m t s) in
+      run_ops eng m
+        (match eng with
+         | Async => fst (async_loop async_fuel m (fold_left (fun s' ev => async_send ev s') op s1))
+         | _ => match op with [] => s1 | _ => catch (sync_send_events m op) s1 end
+         end) r
+  end.
+
+Definition snap_case (eng : engine) (m : machine) (cx : ctx) (k : nat) (ops : list (nat * list event)) : list (list tok) :=
+  let s0 := match eng with
+            | Async => fst (async_loop async_fuel m (catch (async_start m) (st_init cx)))
+            | _ => catch (sync_start m) (st_init cx)
+            end in
+  let sk := run_ops eng m s0 (firstn k ops) in
+  let sn := persist m sk in
+  flat_snap sn ::
+  match restore m sn with
+  | None => [[TS "restore-error"]]
+  | Some r =>
+      (* async: start() on a restored interpreter only attaches the consumer loop *)
+      flat_st r :: match eng with
+                   | Async => async_snaps false m r (skipn k ops)
+                   | _ => sync_snaps false m r (skipn k ops)
+                   end
+  end.
+Definition check_snap (eng : engine) (m : machine) (runs : list (ctx * nat * list (nat * list event) * list (list tok))) : list nat :=
+  bad_idx (fun r => match r with (cx, k, ops, expected) => snaps_eqb (snap_case eng m cx k ops) expected end) runs.
